@@ -60,22 +60,42 @@ func init() {
 		ex.setBool("c03CacheHitIdRewritten", okHit, ce != nil, "cache.Exec: cachedResp.Id = q.Id before SetResponse")
 		// redirect
 		re := ex.fn("plugin/executable/redirect/redirect.go", "Redirect", "Exec")
-		okRe := false
+		okRe, okCur := false, false
 		if re != nil {
 			ss := stmtStrings(ex, re.Body)
+			// the deferred function: first the restore through the pointer read on entry (`q`); then, optionally, the
+			// restore of the query the context points to NOW when a plugin below replaced it by a copy (F13)
 			hasDefer := false
+			nDefer := 0
 			ast.Inspect(re.Body, func(n ast.Node) bool {
-				if d, ok := n.(*ast.DeferStmt); ok && ex.str(d.Call) == "func() { q.Question[0].Name = orgQName }()" {
+				d, ok := n.(*ast.DeferStmt)
+				if !ok {
+					return true
+				}
+				nDefer++
+				lit, ok := d.Call.Fun.(*ast.FuncLit)
+				if !ok || len(d.Call.Args) != 0 || len(lit.Body.List) == 0 || ex.str(lit.Body.List[0]) != "q.Question[0].Name = orgQName" {
+					return true
+				}
+				switch len(lit.Body.List) {
+				case 1:
 					hasDefer = true
+				case 2:
+					if ex.str(lit.Body.List[1]) == "if cq := qCtx.Q(); cq != q && len(cq.Question) == 1 && cq.Question[0].Name == redirectTarget { cq.Question[0].Name = orgQName }" {
+						hasDefer, okCur = true, true
+					}
 				}
 				return true
 			})
+			hasDefer = hasDefer && nDefer == 1
+			okCur = okCur && hasDefer
 			iSet, iNext := indexOf(ss, "q.Question[0].Name = redirectTarget"), indexOf(ss, "err := next.ExecNext(ctx, qCtx)")
 			okRe = hasDefer && iSet >= 0 && iNext > iSet && contains(ss, "orgQName := q.Question[0].Name") &&
 				contains(ss, "if r.Question[i].Name == redirectTarget { r.Question[i].Name = orgQName }") &&
 				contains(ss, "newAns = append(newAns, r.Answer...)") && contains(ss, "r.Answer = newAns") && contains(ss, "return err")
 		}
-		ex.setBool("c03RedirectRestores", okRe, re != nil, "redirect.Exec: rewrite, deferred restore of the query name, reply names restored, CNAME prepended, error returned")
+		ex.setBool("c03RedirectRestores", okRe, re != nil, "redirect.Exec: rewrite, deferred restore of the query name through the pointer read on entry, reply names restored, CNAME prepended, error returned")
+		ex.setBool("c03RedirectRestoresCurrentQuery", okRe && okCur, re != nil, "redirect.Exec: the deferred function also restores the name on the query the context points to when it returns, if that is another object (a plugin below replaced the context) with one question that carries the redirect target")
 		// locally generated answers
 		okLocal := true
 		for _, site := range [][3]string{
